@@ -8,6 +8,8 @@ FAMILIES = ["herm", "gen"]
 def build(tier):
     report = {}
     groups = SG.select(PROP, FAMILIES, report)
+    from props import skel
+    groups.append(skel.init_coverage(report))
     meta = {"level": "proof", "trusted_base": SG.TRUSTED, "assumptions": SG.ASSUMPTIONS, "extraction": report,
             "not_covered": ['bit-level determinism of Eigen kernels and of the operator (assumed)'],
             "explanation": 'init() re-creates every datum compute() can read, from an arbitrary object state'}
